@@ -152,6 +152,9 @@ pub struct StateStore {
     checkpoints: Arc<RwLock<Vec<CheckpointMetadata>>>,
     /// Last checkpoint time
     last_checkpoint: Arc<RwLock<u64>>,
+    /// Sequence number of the next checkpoint taken by this store; part of the checkpoint ID so
+    /// that checkpoints taken within the same millisecond stay distinct
+    checkpoint_seq: u64,
     /// Redis connection (if using Redis backend)
     #[cfg(feature = "streaming-redis")]
     redis_client: Option<Arc<RwLock<Client>>>,
@@ -183,6 +186,7 @@ impl StateStore {
             state: Arc::new(RwLock::new(HashMap::new())),
             checkpoints: Arc::new(RwLock::new(Vec::new())),
             last_checkpoint: Arc::new(RwLock::new(0)),
+            checkpoint_seq: 0,
             #[cfg(feature = "streaming-redis")]
             redis_client,
         }
@@ -481,13 +485,26 @@ impl StateStore {
 
     /// Create a checkpoint of current state
     pub fn checkpoint(&mut self, name: impl Into<String>) -> StateResult<String> {
-        let checkpoint_id = format!(
-            "checkpoint_{}",
-            SystemTime::now()
-                .duration_since(UNIX_EPOCH)
-                .unwrap()
-                .as_millis()
-        );
+        let now_ms = SystemTime::now()
+            .duration_since(UNIX_EPOCH)
+            .unwrap()
+            .as_millis();
+
+        // The millisecond timestamp alone does not identify a checkpoint: two checkpoints taken
+        // within the same millisecond would share an ID and, on the file backend, a directory.
+        // Append a per-store sequence number, and never reuse a directory that already exists
+        // (e.g. one written by an earlier process on the same path).
+        let checkpoint_id = loop {
+            let candidate = format!("checkpoint_{}_{}", now_ms, self.checkpoint_seq);
+            self.checkpoint_seq += 1;
+            let taken = match &self.config.backend {
+                StateBackend::File { path } => path.join(&candidate).exists(),
+                _ => false,
+            };
+            if !taken {
+                break candidate;
+            }
+        };
 
         let state = self.state.read().unwrap();
         let snapshot: HashMap<String, Value> = state
